@@ -468,23 +468,24 @@ theorem reg_doUnsubscribe {s : State} (c : Nat) (ch : Bytes) (h : Reg s) : Reg (
 
 /-- the registry invariant holds in every reachable state -/
 theorem regPres (cfg : Cfg) : Pres cfg Reg where
-  logAct := fun _ c a _ h => reg_logAct c a h
-  closeT := fun _ c h => reg_closeT c h
-  crashClose := fun _ c h => reg_crashClose c h
-  doSubscribe := fun _ c ch ok x hx hr _ _ h => reg_doSubscribe c ch ok x hx hr h
-  doUnsubscribe := fun _ c ch _ _ _ h => reg_doUnsubscribe c ch h
-  setAuth := fun _ c i d row _ _ _ h => reg_setAuth c i d row h
-  pauseReading := fun _ c h => reg_pauseReading c h
-  resumeReading := fun _ c h => reg_resumeReading c h
-  addPending := fun _ c _ _ h => reg_upd c _ (fun _ => ⟨rfl, rfl, rfl, fun h => h⟩) h
-  dropPending := fun _ c _ h => reg_upd c _ (fun _ => ⟨rfl, rfl, rfl, fun h => h⟩) h
-  setBuf := fun _ c _ h => reg_upd c _ (fun _ => ⟨rfl, rfl, rfl, fun h => h⟩) h
-  publish := fun _ c x i ch p _ _ _ _ h => reg_publish c x i ch p h
-  addConn := fun _ c n hc h => reg_addConn c n hc h
-  peerClose := fun _ c h => reg_peerClose c h
-  lostConn := fun _ c x hx _ h => reg_lostConn c x hx h
-  armDeadline := fun _ c h => reg_logAct c _ (reg_upd c _ (fun _ => ⟨rfl, rfl, rfl, fun h => h⟩) h)
-  clearDeadline := fun _ c a _ h => reg_logAct c a (reg_upd c _ (fun _ => ⟨rfl, rfl, rfl, fun h => h⟩) h)
+  prim := fun c => {
+    logAct := fun _ a _ h => reg_logAct c a h
+    closeT := fun _ h => reg_closeT c h
+    crashClose := fun _ h => reg_crashClose c h
+    doSubscribe := fun _ ch ok x hx hr _ _ _ h => reg_doSubscribe c ch ok x hx hr h
+    doUnsubscribe := fun _ ch _ _ _ _ h => reg_doUnsubscribe c ch h
+    setAuth := fun _ i d row _ _ _ h => reg_setAuth c i d row h
+    pauseReading := fun _ h => reg_pauseReading c h
+    resumeReading := fun _ h => reg_resumeReading c h
+    addPending := fun _ _ _ h => reg_upd c _ (fun _ => ⟨rfl, rfl, rfl, fun h => h⟩) h
+    dropPending := fun _ _ h => reg_upd c _ (fun _ => ⟨rfl, rfl, rfl, fun h => h⟩) h
+    setBuf := fun _ _ h => reg_upd c _ (fun _ => ⟨rfl, rfl, rfl, fun h => h⟩) h
+    publish := fun _ x i ch p _ _ _ _ h => reg_publish c x i ch p h
+    addConn := fun _ n hc h => reg_addConn c n hc h
+    peerClose := fun _ h => reg_peerClose c h
+    lostConn := fun _ x hx _ h => reg_lostConn c x hx h
+    armDeadline := fun _ h => reg_logAct c _ (reg_upd c _ (fun _ => ⟨rfl, rfl, rfl, fun h => h⟩) h)
+    clearDeadline := fun _ a _ h => reg_logAct c a (reg_upd c _ (fun _ => ⟨rfl, rfl, rfl, fun h => h⟩) h) }
   tick := fun s ms h => reg_congr (s := s) rfl rfl rfl h
 
 theorem reg_run (cfg : Cfg) (es : List Event) : Reg (run cfg es) :=
